@@ -97,22 +97,25 @@ Step(w, o, s, e) ==
                        /\ (s1.procBad \/ s1.procSUFail)
                     THEN "C16:layer-after-stop" ELSE ""
              b == BrIdle(w, s1.p)
-             s2 == NoteAll(s1, <<C01(SetUpBeginErr(w, s1.p, e.l)), C05(b[1]), C16(c16)>>)
-         IN [s2 EXCEPT !.p = SetUpBegin(b[2], e.l)]
+             s2 == NoteAll(s1, <<C01(IF e.x THEN "" ELSE SetUpBeginErr(w, s1.p, e.l)),
+                                 C05(b[1]), C16(c16)>>)
+         IN [s2 EXCEPT !.p = IF e.x THEN b[2] ELSE SetUpBegin(b[2], e.l)]
     [] e.e = "SUE" ->
-         LET s2 == Note1(s, "C01", SetUpEndErr(w, s.p, e.l))
-         IN [s2 EXCEPT !.p = SetUpEnd(s2.p, e.l, e.s),
+         LET s2 == Note1(s, "C01", IF e.x THEN "" ELSE SetUpEndErr(w, s.p, e.l))
+         IN [s2 EXCEPT !.p = IF e.x THEN @ ELSE SetUpEnd(s2.p, e.l, e.s),
                        !.suFailed = IF e.s = "ok" THEN @ ELSE @ \cup {e.l},
                        !.suFails = IF e.s = "ok" THEN @ ELSE Append(@, e.l),
                        !.procSUFail = @ \/ e.s # "ok"]
     [] e.e = "TDB" ->
          LET s1 == FinishCur(w, s)
              b == BrIdle(w, s1.p)
-             s2 == NoteAll(s1, <<C01(TearDownBeginErr(w, s1.p, e.l)), C05(b[1])>>)
-         IN [s2 EXCEPT !.p = TearDownBegin(b[2], e.l)]
+             s2 == NoteAll(s1, <<C01(IF e.x THEN "" ELSE TearDownBeginErr(w, s1.p, e.l)),
+                                 C05(b[1])>>)
+         IN [s2 EXCEPT !.p = IF e.x THEN b[2] ELSE TearDownBegin(b[2], e.l)]
     [] e.e = "TDE" ->
-         LET s2 == Note1(s, "C01", TearDownEndErr(w, s.p, e.l))
-         IN [s2 EXCEPT !.p = TearDownEnd(s2.p, e.l, e.s),
+         LET s2 == Note1(s, "C01", IF e.x THEN "" ELSE TearDownEndErr(w, s.p, e.l))
+         IN [s2 EXCEPT !.p = IF e.x THEN [@ EXCEPT !.cant = @ \/ e.s = "notimpl"]
+                             ELSE TearDownEnd(s2.p, e.l, e.s),
                        !.tdFailed = IF e.s = "raise" THEN @ \cup {e.l} ELSE @,
                        !.tdFails = IF e.s = "raise" THEN Append(@, e.l) ELSE @,
                        !.notimpl = IF e.s = "notimpl" THEN @ \cup {e.l} ELSE @,
@@ -305,13 +308,19 @@ Final(w, o, s, r) ==
       \* the same world run in another execution mode (in-process, -j N,
       \* resumed children): same totals, same verdict, same lists (as bags)
       PeerOK(p) == p.crashed = "" /\ r.crashed = ""
+      \* how often a layer hook fails legitimately depends on how often the
+      \* mode sets the layer up: compare the totals net of layer faults
+      NetTotal(t, lf) == <<t[1], t[2], t[3] - lf, t[4]>>
       c12d == IF quiet \/ o.stop THEN ""
               ELSE IF \E k \in 1..Len(r.peers) :
                         /\ PeerOK(r.peers[k]) /\ r.hasTotal /\ r.peers[k].hasTotal
-                        /\ r.peers[k].total # r.total
+                        /\ NetTotal(r.peers[k].total, r.peers[k].layerFaults)
+                             # NetTotal(r.total, Len(s.suFails) + Len(s.tdFails))
                    THEN (IF \A k \in 1..Len(r.peers) :
                               (PeerOK(r.peers[k]) /\ r.peers[k].hasTotal) =>
-                                 \A j \in 1..3 : r.peers[k].total[j] = r.total[j]
+                                 \A j \in 1..3 :
+                                    NetTotal(r.peers[k].total, r.peers[k].layerFaults)[j]
+                                    = NetTotal(r.total, Len(s.suFails) + Len(s.tdFails))[j]
                          THEN "C12:modes-totals-differ-in-skipped"
                          ELSE "C12:modes-totals-differ")
               ELSE IF \E k \in 1..Len(r.peers) :
